@@ -311,6 +311,39 @@ func runC19(c *Ctx) {
 		L.Check(szInit && szStep && exInit && exStep && okTest && okFloor && same, "R-C19-CTOR", "getSize", "n floored at 512 first; then size doubles and exponent counts in lock-step until size ≥ n; returns that pair",
 			fmt.Sprintf("getSize is not `floor 512; size=1,exp=0; while size<n {size<<=1; exp++}` (size φ ok:%v exp φ ok:%v test ok:%v floor-before-loop:%v)", szInit && szStep, exInit && exStep, okTest, okFloor), rs[0].Pos())
 	})
+	c.Group("R-C19-CTOR", "NewBloomFilter#dispatch", func() {
+		// the second parameter is a false-positive rate exactly when it is < 1; from 1 upwards it is a
+		// number of hash locations (JSONUnmarshal re-imports a one-location filter as (size, 1.0): read as
+		// a rate that yields 0 locations, and with 0 locations Has is vacuously true)
+		fn := P.Fn("z", "", "NewBloomFilter")
+		tb := newTB(fn)
+		second := "idx(p[0],c[1])"
+		rate := edgesWhere(fn, tb, "lt("+second+",c[1])", nil, true)
+		count := edgesWhere(fn, tb, "lt("+second+",c[1])", nil, false)
+		var calc, conv []ssa.Instruction
+		eachInstr(fn, func(in ssa.Instruction) {
+			if ci, ok := in.(ssa.CallInstruction); ok && calleeName(ci.Common()) == "z.calcSizeByWrongPositives" {
+				calc = append(calc, in)
+			}
+			if cv, ok := in.(*ssa.Convert); ok && tb.T(cv).String() == "conv[uint64]("+second+")" {
+				conv = append(conv, in)
+			}
+		})
+		if len(calc) == 0 || len(conv) == 0 || len(rate) == 0 {
+			L.Fail("R-C19-CTOR", "NewBloomFilter#dispatch", fmt.Sprintf("the rate/locations dispatch on `params[1] < 1` is not there (rate arm calls: %d, location arm conversions: %d, comparisons: %d)", len(calc), len(conv), len(rate)), fn.Pos())
+			return
+		}
+		b1, _ := reach(entryPos(fn), isAnyInstr(calc), nil, cutSet(rate))
+		b2, _ := reach(entryPos(fn), isAnyInstr(conv), nil, cutSet(count))
+		switch {
+		case b1 != nil:
+			L.Fail("R-C19-CTOR", "NewBloomFilter#dispatch", "the second parameter is taken for a false-positive rate without being < 1: a value of exactly 1 (one hash location) becomes a rate that yields no location at all", instrPos(b1))
+		case b2 != nil:
+			L.Fail("R-C19-CTOR", "NewBloomFilter#dispatch", "the second parameter is taken for a number of hash locations although it is < 1 (truncates to 0 locations)", instrPos(b2))
+		default:
+			L.Ok("R-C19-CTOR", "NewBloomFilter#dispatch", "params[1] < 1 ⇒ rate (calcSizeByWrongPositives), otherwise ⇒ number of hash locations", fn.Pos())
+		}
+	})
 	c.Group("R-C19-CTOR", "NewBloomFilter", func() {
 		fn := P.Fn("z", "", "NewBloomFilter")
 		L.Analysed(fname(fn))
